@@ -7,9 +7,6 @@ about the handler alone (all sites) and the executor fragment (which only uses t
 namespace AquaProps.Panic
 open Aqua Aqua.Trace Aqua.Data
 
-def sSPL := "trace_slider.rs:set_position_and_len:position+subtrace_len"
-def sSSL := "trace_slider.rs:set_subtrace_len:trace_len-position"
-def sTGG := "merge_ctx.rs:try_get_generation:res_generations[0]"
 def sPMP := "position_mapping.rs:prev_position-1"
 def sPMC := "position_mapping.rs:current_position-1"
 def sCUM := "fold_lore_resolver.rs:cum_after_len+=after_len"
@@ -27,26 +24,31 @@ macro "th_leafs" : tactic => `(tactic| repeat' (first | th_leaf | split))
 /-- for functions that never panic: case analysis on the computation -/
 macro "never_panics" : tactic => `(tactic| (intro s' h; simp only [bind, Res.bind, pure] at h; (repeat' (split at h)) <;> cases h))
 
-theorem setPositionAndLen_in (h : sSPL ∈ L) (s : TraceSlider) (p l : Nat) : ResIn L (s.setPositionAndLen p l) := by
+/-- repaired in /repo 95e5498 (`checked_add`): **`set_position_and_len` never panics** -/
+theorem setPositionAndLen_in (s : TraceSlider) (p l : Nat) : ResIn L (s.setPositionAndLen p l) := by
   unfold TraceSlider.setPositionAndLen
+  dsimp only
   split
-  · apply resIn_bind' (resIn_addU32 h _ _); intro sum
-    th_leafs
-  · exact resIn_pure _
+  · exact resIn_error _
+  · exact resIn_ok _
 
-theorem setSubtraceLen_in (h : sSSL ∈ L) (s : TraceSlider) (l : Nat) : ResIn L (s.setSubtraceLen l) := by
+/-- repaired in /repo d774f34 (`saturating_sub`): **`set_subtrace_len` never panics** -/
+theorem setSubtraceLen_in (s : TraceSlider) (l : Nat) : ResIn L (s.setSubtraceLen l) := by
   unfold TraceSlider.setSubtraceLen
-  apply resIn_bind' (resIn_subU32 h _ _); intro r
-  th_leafs
+  dsimp only
+  split
+  · exact resIn_error _
+  · exact resIn_ok _
 
-theorem tryGetGeneration_in (h : sTGG ∈ L) (s : TraceSlider) (p : Nat) : ResIn L (tryGetGeneration s p) := by
+/-- repaired in /repo 8502764 (match guard): **`try_get_generation` never panics** -/
+theorem tryGetGeneration_in (s : TraceSlider) (p : Nat) : ResIn L (tryGetGeneration s p) := by
   unfold tryGetGeneration
   split
   · exact resIn_error _
   · exact resIn_ok _
   · split
     · exact resIn_ok _
-    · exact resIn_panic h
+    · exact resIn_error _
   · exact resIn_error _
 
 theorem preparePositionsMapping_in (hp : sPMP ∈ L) (hc : sPMC ∈ L) (sch : PreparationScheme) (k : DataKeeper) :
@@ -169,7 +171,7 @@ theorem tryMergeNextStateAsCanon_in (k : DataKeeper) : ResIn L (tryMergeNextStat
 theorem tryMergeNextStateAsPar_in (k : DataKeeper) : ResIn L (tryMergeNextStateAsPar k) := by
   unfold tryMergeNextStateAsPar; dsimp only; th_leafs
 
-theorem updateCtxStates_in (h : sSPL ∈ L) (p : CtxStatesPair) (k : DataKeeper) : ResIn L (updateCtxStates p k) := by
+theorem updateCtxStates_in (p : CtxStatesPair) (k : DataKeeper) : ResIn L (updateCtxStates p k) := by
   unfold updateCtxStates
   have upd : ∀ (s : TraceSlider) (c : CtxState), ResIn L
       (match s.setPositionAndLen c.pos c.subtraceLen with
@@ -181,7 +183,7 @@ theorem updateCtxStates_in (h : sSPL ∈ L) (p : CtxStatesPair) (k : DataKeeper)
     · exact resIn_ok _
     · exact resIn_ok _
     · rename_i site hs
-      exact fun s' h' => by cases h'; exact setPositionAndLen_in h _ _ _ _ hs
+      exact fun s' h' => by cases h'; exact setPositionAndLen_in _ _ _ _ hs
   dsimp only
   apply resIn_bind' (upd _ _); intro ps
   apply resIn_bind' (upd _ _); intro cs
@@ -194,42 +196,42 @@ theorem parComputeNewState_in (par : ParResult) (t : SubgraphType) (s : TraceSli
 theorem liftFsm_in {r : Res FsmErr α} (h : ResIn L r) : ResIn L (liftFsm r) := by unfold liftFsm; exact resIn_mapErr _ h
 theorem liftKeeperF_in {r : Res KeeperErr α} (h : ResIn L r) : ResIn L (liftKeeperF r) := by unfold liftKeeperF; exact resIn_mapErr _ h
 
-theorem parPrepareSliders_in (h : sSSL ∈ L) (f : ParFSM) (t : SubgraphType) (k : DataKeeper) : ResIn L (parPrepareSliders f t k) := by
+theorem parPrepareSliders_in (f : ParFSM) (t : SubgraphType) (k : DataKeeper) : ResIn L (parPrepareSliders f t k) := by
   unfold parPrepareSliders
   dsimp only
   split <;>
-  · apply resIn_bind' (liftKeeperF_in (setSubtraceLen_in h _ _)); intro ps
-    apply resIn_bind' (liftKeeperF_in (setSubtraceLen_in h _ _)); intro cs
+  · apply resIn_bind' (liftKeeperF_in (setSubtraceLen_in _ _)); intro ps
+    apply resIn_bind' (liftKeeperF_in (setSubtraceLen_in _ _)); intro cs
     exact resIn_pure _
 
-theorem fromLeftStarted_in (h : sSSL ∈ L) (pp cp : ParResult) (k : DataKeeper) : ResIn L (ParFSM.fromLeftStarted pp cp k) := by
+theorem fromLeftStarted_in (pp cp : ParResult) (k : DataKeeper) : ResIn L (ParFSM.fromLeftStarted pp cp k) := by
   unfold ParFSM.fromLeftStarted
   dsimp only
   apply resIn_bind' (liftFsm_in (parComputeNewState_in _ _ _)); intro lp
   apply resIn_bind' (liftFsm_in (parComputeNewState_in _ _ _)); intro lc
   apply resIn_bind' (liftFsm_in (parComputeNewState_in _ _ _)); intro rp
   apply resIn_bind' (liftFsm_in (parComputeNewState_in _ _ _)); intro rc
-  apply resIn_bind' (parPrepareSliders_in h _ _ _); intro k'
+  apply resIn_bind' (parPrepareSliders_in _ _ _); intro k'
   exact resIn_pure _
 
-theorem leftCompleted_in (h1 : sSPL ∈ L) (h2 : sSSL ∈ L) (f : ParFSM) (k : DataKeeper) : ResIn L (f.leftCompleted k) := by
+theorem leftCompleted_in (f : ParFSM) (k : DataKeeper) : ResIn L (f.leftCompleted k) := by
   unfold ParFSM.leftCompleted
   dsimp only
-  apply resIn_bind' (updateCtxStates_in h1 _ _); intro k'
+  apply resIn_bind' (updateCtxStates_in _ _); intro k'
   split
   · exact resIn_pure _
   · split
     · exact resIn_pure _
     · exact resIn_pure _
     · rename_i s hs
-      exact fun s' h' => by cases h'; exact setSubtraceLen_in h2 _ _ _ hs
+      exact fun s' h' => by cases h'; exact setSubtraceLen_in _ _ _ hs
   · rename_i s hs
-    exact fun s' h' => by cases h'; exact parPrepareSliders_in h2 _ _ _ _ hs
+    exact fun s' h' => by cases h'; exact parPrepareSliders_in _ _ _ _ hs
 
-theorem rightCompleted_in (h1 : sSPL ∈ L) (f : ParFSM) (k : DataKeeper) : ResIn L (f.rightCompleted k) := by
+theorem rightCompleted_in (f : ParFSM) (k : DataKeeper) : ResIn L (f.rightCompleted k) := by
   unfold ParFSM.rightCompleted
   dsimp only
-  exact updateCtxStates_in h1 _ _
+  exact updateCtxStates_in _ _
 
 /-! ### the entry points used by the stream-free executor fragment -/
 
@@ -237,41 +239,41 @@ theorem meetCallStart_in (h : TraceHandler) : ResIn L h.meetCallStart := by
   unfold TraceHandler.meetCallStart
   apply resIn_bind' (tryMergeNextStateAsCall_never _); intro r; exact resIn_pure _
 
-theorem meetParStart_in (h2 : sSSL ∈ L) (h : TraceHandler) : ResIn L h.meetParStart := by
+theorem meetParStart_in (h : TraceHandler) : ResIn L h.meetParStart := by
   unfold TraceHandler.meetParStart
   apply resIn_bind' (tryMergeNextStateAsPar_in _); intro r
-  apply resIn_bind' (fromLeftStarted_in h2 _ _ _); intro r2
+  apply resIn_bind' (fromLeftStarted_in _ _ _); intro r2
   exact resIn_pure _
 
-theorem meetParSubgraphEnd_in (h1 : sSPL ∈ L) (h2 : sSSL ∈ L) (h : TraceHandler) (t : SubgraphType) : ResIn L (h.meetParSubgraphEnd t) := by
+theorem meetParSubgraphEnd_in (h : TraceHandler) (t : SubgraphType) : ResIn L (h.meetParSubgraphEnd t) := by
   unfold TraceHandler.meetParSubgraphEnd
   split
   · exact resIn_error _
   · split
-    · apply resIn_bind' (leftCompleted_in h1 h2 _ _); intro r; exact resIn_pure _
-    · apply resIn_bind' (rightCompleted_in h1 _ _); intro r; exact resIn_pure _
+    · apply resIn_bind' (leftCompleted_in _ _); intro r; exact resIn_pure _
+    · apply resIn_bind' (rightCompleted_in _ _); intro r; exact resIn_pure _
 
 
 /-! ### fold: lore resolver, FoldFSM -/
 
-theorem computeLensConvolution_loop_in (h1 : sTGG ∈ L) (h2 : sCUM ∈ L) (s : TraceSlider) :
+theorem computeLensConvolution_loop_in (h2 : sCUM ∈ L) (s : TraceSlider) :
     ∀ (ls : List FoldSubTraceLore) (id : Nat) (st : ConvState), ResIn L (computeLensConvolution.loop s id ls st)
   | [], id, st => by unfold computeLensConvolution.loop; exact resIn_ok _
   | l :: rest, id, st => by
     unfold computeLensConvolution.loop
     split
     · exact resIn_error _
-    · apply resIn_bind' (resIn_mapErr _ (tryGetGeneration_in h1 _ _)); intro gen
+    · apply resIn_bind' (resIn_mapErr _ (tryGetGeneration_in _ _)); intro gen
       dsimp only
       repeat' (first
         | exact resIn_error _
-        | (apply resIn_bind' (resIn_addU32 h2 _ _); intro cum; exact computeLensConvolution_loop_in h1 h2 s rest _ _)
+        | (apply resIn_bind' (resIn_addU32 h2 _ _); intro cum; exact computeLensConvolution_loop_in h2 s rest _ _)
         | split)
 
-theorem computeLensConvolution_in (h1 : sTGG ∈ L) (h2 : sCUM ∈ L) (lore : List FoldSubTraceLore) (s : TraceSlider) :
+theorem computeLensConvolution_in (h2 : sCUM ∈ L) (lore : List FoldSubTraceLore) (s : TraceSlider) :
     ResIn L (computeLensConvolution lore s) := by
   unfold computeLensConvolution
-  apply resIn_bind' (computeLensConvolution_loop_in h1 h2 s _ _ _); intro st
+  apply resIn_bind' (computeLensConvolution_loop_in h2 s _ _ _); intro st
   exact resIn_pure _
 
 theorem resolveFoldLore_build_in : ∀ (ls : List (FoldSubTraceLore × LoresLen)) (acc : List (Nat × ResolvedSubTraceDescs)),
@@ -284,17 +286,17 @@ theorem resolveFoldLore_build_in : ∀ (ls : List (FoldSubTraceLore × LoresLen)
     · exact resIn_error _
     · exact resolveFoldLore_build_in rest _
 
-theorem resolveFoldLore_in (h1 : sTGG ∈ L) (h2 : sCUM ∈ L) (lore : List FoldSubTraceLore) (s : TraceSlider) :
+theorem resolveFoldLore_in (h2 : sCUM ∈ L) (lore : List FoldSubTraceLore) (s : TraceSlider) :
     ResIn L (resolveFoldLore lore s) := by
   unfold resolveFoldLore
-  apply resIn_bind' (computeLensConvolution_in h1 h2 _ _); intro r
+  apply resIn_bind' (computeLensConvolution_in h2 _ _); intro r
   apply resIn_bind' (resolveFoldLore_build_in _ _); intro r2
   exact resIn_pure _
 
-theorem tryMergeNextStateAsFold_in (h1 : sTGG ∈ L) (h2 : sCUM ∈ L) (k : DataKeeper) : ResIn L (tryMergeNextStateAsFold k) := by
+theorem tryMergeNextStateAsFold_in (h2 : sCUM ∈ L) (k : DataKeeper) : ResIn L (tryMergeNextStateAsFold k) := by
   unfold tryMergeNextStateAsFold
   dsimp only
-  have hl : ∀ lore s, ResIn L ((resolveFoldLore lore s).mapErr TraceErr.merge) := fun lore s => resIn_mapErr _ (resolveFoldLore_in h1 h2 lore s)
+  have hl : ∀ lore s, ResIn L ((resolveFoldLore lore s).mapErr TraceErr.merge) := fun lore s => resIn_mapErr _ (resolveFoldLore_in h2 lore s)
   split
   · apply resIn_bind' (hl _ _); intro a
     apply resIn_bind' (hl _ _); intro b
@@ -314,28 +316,28 @@ theorem fromFoldStart_in (pf cf : ResolvedFold) (k : DataKeeper) : ResIn L (Fold
   apply resIn_bind' (liftFsm_in (foldComputeNewState_in _ _)); intro b
   exact resIn_pure _
 
-theorem applyFoldLoreOne_in (h1 : sSPL ∈ L) (h2 : sSSL ∈ L) (s : TraceSlider) (l : Option ResolvedSubTraceDescs) (w : ByNextPosition) :
+theorem applyFoldLoreOne_in (s : TraceSlider) (l : Option ResolvedSubTraceDescs) (w : ByNextPosition) :
     ResIn L (applyFoldLoreOne s l w) := by
   unfold applyFoldLoreOne
   split
   · split
-    · exact setPositionAndLen_in h1 _ _ _
-    · exact setPositionAndLen_in h1 _ _ _
-  · exact setSubtraceLen_in h2 _ _
+    · exact setPositionAndLen_in _ _ _
+    · exact setPositionAndLen_in _ _ _
+  · exact setSubtraceLen_in _ _
 
-theorem applyFoldLore_in (h1 : sSPL ∈ L) (h2 : sSSL ∈ L) (k : DataKeeper) (pl cl : Option ResolvedSubTraceDescs) (w : ByNextPosition) :
+theorem applyFoldLore_in (k : DataKeeper) (pl cl : Option ResolvedSubTraceDescs) (w : ByNextPosition) :
     ResIn L (applyFoldLore k pl cl w) := by
   unfold applyFoldLore
-  apply resIn_bind' (liftKeeperF_in (applyFoldLoreOne_in h1 h2 _ _ _)); intro ps
+  apply resIn_bind' (liftKeeperF_in (applyFoldLoreOne_in _ _ _)); intro ps
   dsimp only
-  apply resIn_bind' (liftKeeperF_in (applyFoldLoreOne_in h1 h2 _ _ _)); intro cs
+  apply resIn_bind' (liftKeeperF_in (applyFoldLoreOne_in _ _ _)); intro cs
   exact resIn_pure _
 
-theorem fsm_meetIterationStart_in (h1 : sSPL ∈ L) (h2 : sSSL ∈ L) (f : FoldFSM) (vp : Nat) (k : DataKeeper) :
+theorem fsm_meetIterationStart_in (f : FoldFSM) (vp : Nat) (k : DataKeeper) :
     ResIn L (f.meetIterationStart vp k) := by
   unfold FoldFSM.meetIterationStart
   dsimp only
-  apply resIn_bind' (applyFoldLore_in h1 h2 _ _ _ _); intro k'
+  apply resIn_bind' (applyFoldLore_in _ _ _ _); intro k'
   exact resIn_pure _
 
 theorem fsm_current_in (h1 : sCUR0 ∈ L) (h2 : sCURI ∈ L) (f : FoldFSM) : ResIn L f.current := by
@@ -351,18 +353,18 @@ theorem fsm_meetIterationEnd_in (h1 : sCUR0 ∈ L) (h2 : sCURI ∈ L) (f : FoldF
   apply resIn_bind' (fsm_current_in h1 h2 _); intro r
   exact resIn_pure _
 
-theorem fsm_meetBackIterator_in (h1 : sCUR0 ∈ L) (h2 : sCURI ∈ L) (h3 : sTB ∈ L) (h4 : sSPL ∈ L) (h5 : sSSL ∈ L)
+theorem fsm_meetBackIterator_in (h1 : sCUR0 ∈ L) (h2 : sCURI ∈ L) (h3 : sTB ∈ L)
     (f : FoldFSM) (k : DataKeeper) : ResIn L (f.meetBackIterator k) := by
   unfold FoldFSM.meetBackIterator
   apply resIn_bind' (fsm_current_in h1 h2 _); intro r
   dsimp only
   split
-  · apply resIn_bind' (applyFoldLore_in h4 h5 _ _ _ _); intro k'
+  · apply resIn_bind' (applyFoldLore_in _ _ _ _); intro k'
     exact resIn_pure _
   · apply resIn_bind' (resIn_subU32 h3 _ _); intro pos
     apply resIn_bind' (fsm_current_in h1 h2 _); intro r2
     try dsimp only
-    apply resIn_bind' (applyFoldLore_in h4 h5 _ _ _ _); intro k'
+    apply resIn_bind' (applyFoldLore_in _ _ _ _); intro k'
     exact resIn_pure _
 
 theorem intoSubtraceLore_in (h1 : sLB ∈ L) (h2 : sLA ∈ L) (c : SubTraceLoreCtor) : ResIn L c.intoSubtraceLore := by
@@ -388,10 +390,10 @@ theorem fsm_meetGenerationEnd_in (h1 : sLB ∈ L) (h2 : sLA ∈ L) (f : FoldFSM)
   apply resIn_bind' (resIn_mapM (intoSubtraceLore_in h1 h2) _); intro lore
   exact resIn_pure _
 
-theorem fsm_meetFoldEnd_in (h1 : sSPL ∈ L) (f : FoldFSM) (k : DataKeeper) : ResIn L (f.meetFoldEnd k) := by
+theorem fsm_meetFoldEnd_in (f : FoldFSM) (k : DataKeeper) : ResIn L (f.meetFoldEnd k) := by
   unfold FoldFSM.meetFoldEnd
   dsimp only
-  exact updateCtxStates_in h1 _ _
+  exact updateCtxStates_in _ _
 
 /-! ### remaining `TraceHandler` entry points -/
 
@@ -403,18 +405,18 @@ theorem meetCanonStart_in (h : TraceHandler) : ResIn L h.meetCanonStart := by
   unfold TraceHandler.meetCanonStart
   apply resIn_bind' (tryMergeNextStateAsCanon_in _); intro r; exact resIn_pure _
 
-theorem meetFoldStart_in (h1 : sTGG ∈ L) (h2 : sCUM ∈ L) (h : TraceHandler) (id : Nat) : ResIn L (h.meetFoldStart id) := by
+theorem meetFoldStart_in (h2 : sCUM ∈ L) (h : TraceHandler) (id : Nat) : ResIn L (h.meetFoldStart id) := by
   unfold TraceHandler.meetFoldStart
-  apply resIn_bind' (tryMergeNextStateAsFold_in h1 h2 _); intro r
+  apply resIn_bind' (tryMergeNextStateAsFold_in h2 _); intro r
   apply resIn_bind' (fromFoldStart_in _ _ _); intro r2
   exact resIn_pure _
 
 theorem foldMut_in (h : TraceHandler) (id : Nat) : ResIn L (h.foldMut id) := by unfold TraceHandler.foldMut; th_leafs
 
-theorem meetIterationStart_in (h1 : sSPL ∈ L) (h2 : sSSL ∈ L) (h : TraceHandler) (id vp : Nat) : ResIn L (h.meetIterationStart id vp) := by
+theorem meetIterationStart_in (h : TraceHandler) (id vp : Nat) : ResIn L (h.meetIterationStart id vp) := by
   unfold TraceHandler.meetIterationStart
   apply resIn_bind' (foldMut_in _ _); intro f
-  apply resIn_bind' (fsm_meetIterationStart_in h1 h2 _ _ _); intro r
+  apply resIn_bind' (fsm_meetIterationStart_in _ _ _); intro r
   exact resIn_pure _
 
 theorem meetIterationEnd_in (h1 : sCUR0 ∈ L) (h2 : sCURI ∈ L) (h : TraceHandler) (id : Nat) : ResIn L (h.meetIterationEnd id) := by
@@ -423,11 +425,11 @@ theorem meetIterationEnd_in (h1 : sCUR0 ∈ L) (h2 : sCURI ∈ L) (h : TraceHand
   apply resIn_bind' (fsm_meetIterationEnd_in h1 h2 _ _); intro r
   exact resIn_pure _
 
-theorem meetBackIterator_in (h1 : sCUR0 ∈ L) (h2 : sCURI ∈ L) (h3 : sTB ∈ L) (h4 : sSPL ∈ L) (h5 : sSSL ∈ L)
+theorem meetBackIterator_in (h1 : sCUR0 ∈ L) (h2 : sCURI ∈ L) (h3 : sTB ∈ L)
     (h : TraceHandler) (id : Nat) : ResIn L (h.meetBackIterator id) := by
   unfold TraceHandler.meetBackIterator
   apply resIn_bind' (foldMut_in _ _); intro f
-  apply resIn_bind' (fsm_meetBackIterator_in h1 h2 h3 h4 h5 _ _); intro r
+  apply resIn_bind' (fsm_meetBackIterator_in h1 h2 h3 _ _); intro r
   exact resIn_pure _
 
 theorem meetGenerationEnd_in (h1 : sLB ∈ L) (h2 : sLA ∈ L) (h : TraceHandler) (id : Nat) : ResIn L (h.meetGenerationEnd id) := by
@@ -436,10 +438,10 @@ theorem meetGenerationEnd_in (h1 : sLB ∈ L) (h2 : sLA ∈ L) (h : TraceHandler
   apply resIn_bind' (fsm_meetGenerationEnd_in h1 h2 _ _); intro r
   exact resIn_pure _
 
-theorem meetFoldEnd_in (h1 : sSPL ∈ L) (h : TraceHandler) (id : Nat) : ResIn L (h.meetFoldEnd id) := by
+theorem meetFoldEnd_in (h : TraceHandler) (id : Nat) : ResIn L (h.meetFoldEnd id) := by
   unfold TraceHandler.meetFoldEnd
   apply resIn_bind' (foldMut_in _ _); intro f
-  apply resIn_bind' (fsm_meetFoldEnd_in h1 _ _); intro r
+  apply resIn_bind' (fsm_meetFoldEnd_in _ _); intro r
   exact resIn_pure _
 
 end AquaProps.Panic
